@@ -213,6 +213,12 @@ def gen_cases(rng, tier):
       if r.random() < 0.3:
         case['tdiags'] = [[[0, r.random() < 0.5]]] if r.random() < 0.7 else ['raise']
       cases.append(case)
+  # plug_teardown_timeout_s not positive (0, -1): no time-out, a tearDown that takes a moment runs to its end
+  for tdto in (0, -1, -0.5):
+    for slowc in ('0', '1'):
+      spec = {str(c): ({'td': 'slow'} if str(c) == slowc else {}) for c in classes}
+      cases.append({'nodes': [_p(1, 'cont', [('a', 0), ('b', 1)]), _p(2, 'cont', [('c', 2)])], 'plugs': spec, 'callbacks': [False],
+                    'tdto': tdto, 'src': 'teardown-timeout-not-positive'})
   # random trees with plugs sprinkled over the phases
   for i in range(300 if tier == 'quick' else 4000):
     r = rng.derive('g%d' % i)
